@@ -2,80 +2,16 @@
 (***************************************************************************)
 (* NodePool disruption budgets (property C05), part (i): the arithmetic.   *)
 (*                                                                         *)
-(* Written from the statement, not from the code:                          *)
-(*   - a budget is active during [hit, hit + duration) after each hit of   *)
-(*     its cron schedule, always if it has no schedule.  A schedule is     *)
-(*     abstracted to its HIT SET (instants, any integer time unit);        *)
-(*   - a percentage is taken of the pool's initialized nodes, rounding up; *)
-(*   - a budget applies to a reason iff it lists it or lists none (an      *)
-(*     empty list lists none);                                             *)
-(*   - the allowance of a pool is that of its most restrictive active      *)
-(*     applicable budget; a malformed budget allows zero.                  *)
-(*                                                                         *)
-(* Section 1 holds the pure operators (Active, Value, Applies, Allowed);   *)
-(* they refer to no variable and are shared by Budgets_Trace.tla and by    *)
-(* the disruption-round model (C05 part (ii)).  Section 2 is a closed      *)
-(* model whose only variable `cs` ranges over the CASE SPACE of part (i):  *)
-(* TLC enumerates it exhaustively, checks sanity invariants of the         *)
-(* definitions on every case and prints every case for replay on the real  *)
-(* v1.NodePool.GetAllowedDisruptionsByReason / v1.Budget.IsActive.         *)
-(*                                                                         *)
-(* A budget is a record                                                    *)
-(*   [cron    : STRING   schedule text, "-" if the budget has none,        *)
-(*    hits    : Seq(Int) hit set of the schedule (any order),              *)
-(*    dur     : Int      duration, same unit as hits, -1 if none,          *)
-(*    kind    : "count" | "pct",   val : Nat,                              *)
-(*    reasons : Seq(STRING), rstate : "nil" | "empty" | "set"              *)
-(*              (rstate only tells an absent list from an empty one - the  *)
-(*              statement gives both the same meaning),                    *)
-(*    mal     : "-" | "cron" | "nodes" | "duration-only"]                  *)
+(* The pure operators (Active, Value, Applies, Allowed) and the guards     *)
+(* live in BudgetGuards.tla (no variables; shared with the trace           *)
+(* specification and the round model).  This module is a closed model      *)
+(* whose only variable `cs` ranges over the CASE SPACE of part (i): TLC    *)
+(* enumerates it exhaustively, checks sanity invariants of the definitions *)
+(* on every case and prints every case for replay on the real              *)
+(* v1.NodePool.GetAllowedDisruptionsByReason / MustGetAllowedDisruptions / *)
+(* v1.Budget.IsActive / GetAllowedDisruptions.                             *)
 (***************************************************************************)
-EXTENDS Integers, Sequences, FiniteSets, TLC, Json
-
-CONSTANTS Rounding,      \* "up" = the statement; "down" = spec mutation
-          WindowEnd,     \* "open" = the statement [hit, hit+dur); "closed" / "startexcl" = spec mutations
-          EmptyReasons   \* "all" = the statement (lists none => every reason); "none" = spec mutation
-
-\* ================================================================ 1. pure definitions
-Unbounded == 2147483647          \* "no active applicable budget": nothing restricts the pool
-
-Hits(b) == {b.hits[i] : i \in DOMAIN b.hits}
-ReasonSet(b) == {b.reasons[i] : i \in DOMAIN b.reasons}
-HasSchedule(b) == b.cron # "-"
-Malformed(b) == b.mal # "-"
-
-InWindow(h, d, now, wend) ==
-    CASE wend = "open"      -> h <= now /\ now < h + d
-      [] wend = "closed"    -> h <= now /\ now <= h + d
-      [] wend = "startexcl" -> h < now /\ now < h + d
-ActiveX(b, now, wend) == ~HasSchedule(b) \/ \E h \in Hits(b) : InWindow(h, b.dur, now, wend)
-
-CeilDiv(a, d) == (a + d - 1) \div d
-ValueX(b, n, rnd) == IF b.kind = "count" THEN b.val
-                     ELSE IF rnd = "up" THEN CeilDiv(b.val * n, 100) ELSE (b.val * n) \div 100
-
-AppliesX(b, reason, er) ==
-    \/ reason \in ReasonSet(b)
-    \/ ReasonSet(b) = {} /\ (er = "all" \/ b.rstate = "nil")
-
-MinOf(S) == CHOOSE x \in S : \A y \in S : x <= y
-Binding(bs, now, reason, wend, er) ==
-    {i \in DOMAIN bs : ActiveX(bs[i], now, wend) /\ AppliesX(bs[i], reason, er)}
-AllowedX(bs, now, n, reason, rnd, wend, er) ==
-    IF \E i \in DOMAIN bs : Malformed(bs[i]) THEN 0
-    ELSE MinOf({ValueX(bs[i], n, rnd) : i \in Binding(bs, now, reason, wend, er)} \cup {Unbounded})
-
-\* the operators of the statement (the switches are "up", "open", "all" in every real configuration)
-Active(b, now) == ActiveX(b, now, WindowEnd)
-Value(b, n) == ValueX(b, n, Rounding)
-Applies(b, reason) == AppliesX(b, reason, EmptyReasons)
-Allowed(bs, now, n, reason) == AllowedX(bs, now, n, reason, Rounding, WindowEnd, EmptyReasons)
-
-\* Guards, shared with the trace specification.  `res` is what the code returned.  When nothing
-\* restricts the pool the statement only needs a value that can never bind (>= the pool size).
-G_C05_Allowed(res, bs, now, n, reason) ==
-    LET a == Allowed(bs, now, n, reason) IN IF a = Unbounded THEN res >= n ELSE res = a
-G_C05_IsActive(res, b, now) == res = Active(b, now)
+EXTENDS BudgetGuards, TLC, Json
 
 \* ================================================================ 2. closed model: the case space
 CONSTANTS Horizon,       \* last instant of the horizon (instants are 0..Horizon)
@@ -84,7 +20,9 @@ CONSTANTS Horizon,       \* last instant of the horizon (instants are 0..Horizon
           Percents, Counts, Sizes,   \* budget values and pool sizes
           Reasons,       \* the disruption reasons
           ListAlphabet,  \* sequence of budgets from which the two- and three-element lists are formed
-          ListInstants   \* instants at which the lists are evaluated
+          ListInstants,  \* instants at which the lists are evaluated
+          BadCrons, BadNodes, NoHitCrons,  \* malformed schedule / nodes texts, schedules that never fire
+          PctSizes       \* pool sizes of the percentage grid (family P)
 
 VARIABLES cs             \* the case being examined: [fam, budgets, now, n, reason]
 vars == <<cs>>
@@ -92,15 +30,14 @@ vars == <<cs>>
 RECURSIVE SortedSeq(_)
 SortedSeq(S) == IF S = {} THEN <<>>
                 ELSE LET m == MinOf(S) IN <<m>> \o SortedSeq(S \ {m})
-MaxOf(S) == CHOOSE x \in S : \A y \in S : x >= y
 MaxDur == MaxOf(Durations)
 
 \* ---- budget alphabets
-B(cron, dur, kind, val, reasons, rstate, mal) ==
+B(cron, dur, kind, val, reasons, rstate, mal, txt) ==
     [cron |-> cron, hits |-> IF cron \in DOMAIN Schedules THEN SortedSeq(Schedules[cron]) ELSE <<>>,
-     dur |-> dur, kind |-> kind, val |-> val, reasons |-> reasons, rstate |-> rstate, mal |-> mal]
-Always(kind, val, reasons, rstate) == B("-", -1, kind, val, reasons, rstate, "-")
-Win(cron, dur, kind, val, reasons, rstate) == B(cron, dur, kind, val, reasons, rstate, "-")
+     dur |-> dur, kind |-> kind, val |-> val, reasons |-> reasons, rstate |-> rstate, mal |-> mal, txt |-> txt]
+Always(kind, val, reasons, rstate) == B("-", -1, kind, val, reasons, rstate, "-", "-")
+Win(cron, dur, kind, val, reasons, rstate) == B(cron, dur, kind, val, reasons, rstate, "-", "-")
 
 RState(rs) == IF Len(rs) = 0 THEN {"nil", "empty"} ELSE {"set"}
 ReasonLists == {<<>>} \cup {<<r>> : r \in Reasons}
@@ -121,6 +58,13 @@ CasesW ==
 
 \* V: one always-active budget, every value x every pool size
 CasesV == {Case("V", <<Always(v[1], v[2], <<>>, "nil")>>, 0, n, "Drifted") : v \in ValueSpecs, n \in Sizes}
+          \cup {Case("V", <<>>, 0, n, "Drifted") : n \in Sizes}      \* an explicitly empty budget list restricts nothing
+
+\* P: the percentage grid - EVERY integer percentage 0..100 x pool sizes (all small ones, the sizes that make
+\* pct*n/100 integral or nearly so, large ones): rounding-boundary cases (pct*n = 0, 1, 99 mod 100) are where an
+\* arithmetic regression hides.  A separate, cheap family with its own specification (PctSpec) so that the main
+\* enumeration does not grow.
+CasesP == {Case("P", <<Always("pct", p, <<>>, "nil")>>, 0, n, "Drifted") : p \in 0..100, n \in PctSizes}
 
 \* R: reason applicability (absent / empty / each reason / several), restrictive and permissive values
 CasesR == UNION {{Case("R", <<Always(v[1], v[2], rs, st)>>, 0, n, r) : st \in RState(rs)}
@@ -134,14 +78,24 @@ Lists3 == {<<ListAlphabet[i], ListAlphabet[j], ListAlphabet[k]>> :
                                 x[1] < x[2] /\ x[2] < x[3]}}
 CasesL == {Case("L", bs, t, n, r) : bs \in Lists2 \cup Lists3, t \in ListInstants, n \in {0, 7, 12}, r \in Reasons}
 
-\* M: malformed entries (alone, before and after a well-formed budget; listing the reason or another one)
-BadCron == "61 * * * *"
+\* M: malformed entries (alone, before and after a well-formed budget; listing the reason or another one).
+\* The texts are what can reach the function when CRD validation is not in the loop; the check's evidence
+\* says which of them the CRD schema would reject.
+RS(rs) == IF Len(rs) = 0 THEN "nil" ELSE "set"
 MalBudgets ==
-    {B(BadCron, MinOf(Durations), "count", 5, rs, IF Len(rs) = 0 THEN "nil" ELSE "set", "cron") : rs \in {<<>>, <<"Empty">>}}
-    \cup {B("-", -1, "count", 0, rs, IF Len(rs) = 0 THEN "nil" ELSE "set", "nodes") : rs \in {<<>>, <<"Empty">>}}
-    \cup {B("-", MinOf(Durations), "count", 5, rs, IF Len(rs) = 0 THEN "nil" ELSE "set", "duration-only") : rs \in {<<>>, <<"Empty">>}}
+    {B(c, MinOf(Durations), "count", 5, rs, RS(rs), "cron", c) : c \in BadCrons, rs \in {<<>>, <<"Empty">>}}
+    \cup {B("-", -1, "count", 0, rs, RS(rs), "nodes", t) : t \in BadNodes, rs \in {<<>>, <<"Empty">>}}
+    \cup {B("-", MinOf(Durations), "count", 5, rs, RS(rs), "duration-only", "-") : rs \in {<<>>, <<"Empty">>}}
 CasesM == UNION {{Case("M", <<m>>, 0, 10, r), Case("M", <<m, Always("count", 3, <<>>, "nil")>>, 0, 10, r),
                   Case("M", <<Always("count", 3, <<>>, "nil"), m>>, 0, 10, r)} : m \in MalBudgets, r \in Reasons}
+
+\* N: inputs on which the statement is silent (BudgetGuards!Readings): a schedule that never fires, a
+\* schedule without a duration; alone and next to a well-formed budget
+LenBudgets ==
+    {B(c, MinOf(Durations), "count", 1, <<>>, "nil", "nohit", c) : c \in NoHitCrons}
+    \cup {B(c, -1, "count", 1, <<>>, "nil", "sched-only", "-") : c \in DOMAIN Schedules}
+CasesN == UNION {{Case("N", <<m>>, t, 10, "Drifted"), Case("N", <<m, Always("count", 3, <<>>, "nil")>>, t, 10, "Drifted")}
+                 : m \in LenBudgets, t \in ListInstants}
 
 \* ---- the model: one action per family, each picks a case
 CaseInit == cs = NoCase
@@ -150,12 +104,18 @@ PickValue     == cs = NoCase /\ cs' \in CasesV
 PickReasons   == cs = NoCase /\ cs' \in CasesR
 PickList      == cs = NoCase /\ cs' \in CasesL
 PickMalformed == cs = NoCase /\ cs' \in CasesM
-CaseNext == PickWindow \/ PickValue \/ PickReasons \/ PickList \/ PickMalformed
+PickLenient   == cs = NoCase /\ cs' \in CasesN
+CaseNext == PickWindow \/ PickValue \/ PickReasons \/ PickList \/ PickMalformed \/ PickLenient
 CaseSpec == CaseInit /\ [][CaseNext]_vars
+PickPercent == cs = NoCase /\ cs' \in CasesP
+PctSpec == CaseInit /\ [][PickPercent]_vars
 
 \* ---- sanity invariants of the definitions, checked on every case
 A(bs) == Allowed(bs, cs.now, cs.n, cs.reason)
-Extras == {ListAlphabet[i] : i \in DOMAIN ListAlphabet} \cup MalBudgets
+MinTxt(S) == CHOOSE t \in S : TRUE
+\* budgets added / removed by the monotonicity invariant: the list alphabet and one malformed entry of each kind
+Extras == {ListAlphabet[i] : i \in DOMAIN ListAlphabet}
+          \cup {m \in MalBudgets : m.mal = "duration-only" \/ m.txt = MinTxt({x.txt : x \in {y \in MalBudgets : y.mal = m.mal}})}
 WellFormedCase == \A i \in DOMAIN cs.budgets : ~Malformed(cs.budgets[i])
 
 \* Allowed never exceeds any active applicable budget's value
@@ -210,7 +170,7 @@ MC_Schedules ==
     ("*/15 * * * *" :> {k * 15 * Mn : k \in 0..24}) @@
     ("30 2 * * *"   :> {2 * Hr + 30 * Mn}) @@
     ("@hourly"      :> {k * Hr : k \in 0..6})
-MC_Durations == {10 * Mn, 20 * Mn, 30 * Mn, 60 * Mn, 90 * Mn}
+MC_Durations == {90, 10 * Mn, 20 * Mn, 30 * Mn, 60 * Mn, 90 * Mn}
 MC_Percents == {0, 1, 5, 10, 33, 50, 99, 100}
 MC_Counts == {0, 1, 2, 5, 12, 13, 100}
 MC_Sizes == 0..12
@@ -225,5 +185,10 @@ MC_ListAlphabet ==
       Win("0 * * * *", 10 * Mn, "count", 0, <<>>, "nil"),
       Win("0,20 * * * *", 30 * Mn, "count", 1, <<"Drifted">>, "set"),
       Win("0,20 * * * *", 30 * Mn, "pct", 33, <<>>, "empty")>>
+MC_BadCrons == {"61 * * * *", "* * * *", "0 0 * * 8", "CRON_TZ=Asia/Tokyo 0 * * * *", "hourly"}
+MC_BadNodes == {"abc", "", "1.5", "5 %", "%", "10 "}
+MC_NoHitCrons == {"0 0 31 2 *", "0 0 30 2 *"}
+MC_PctSizes == (0..30) \cup {33, 40, 50, 64, 99, 100, 101, 125, 150, 199, 200, 250, 300, 333, 999, 1000, 1001, 4096,
+                            10000, 65535, 1000000, 9999999, 10000000, 21474835}   \* 100 * n + 99 must fit TLC's 32-bit integers
 MC_ListInstants == LET h == 3 * Hr IN {h - 1, h, h + 10 * Mn - 1, h + 10 * Mn, h + 50 * Mn - 1, h + 50 * Mn}
 =============================================================================
